@@ -413,7 +413,7 @@ func pairProperty(t *testing.T, targets [][2]string, quick, thorough int) {
 
 func TestPairingNative377(t *testing.T) {
 	t.Parallel()
-	pairProperty(t, [][2]string{{"bls12377", "check"}, {"bls12377", "check"}, {"bls12377", "g1"}, {"bls12377", "g2"}}, 24, 1500)
+	pairProperty(t, [][2]string{{"bls12377", "check"}, {"bls12377", "check"}, {"bls12377", "g1"}, {"bls12377", "g2"}}, 24, 600)
 }
 
 // pairTable is the deterministic minimum every run covers on a curve: both
@@ -436,7 +436,11 @@ func TestPairingEmulated(t *testing.T) {
 	rec := ev.Get(ID)
 	rec.SetRule(rule)
 	var wg sync.WaitGroup
-	for _, curve := range []string{"bn254", "bls12381"} {
+	tableCurves := []string{"bn254", "bls12381"}
+	if !firstShard() {
+		tableCurves = nil
+	}
+	for _, curve := range tableCurves {
 		wg.Add(1)
 		go func(curve string) {
 			defer wg.Done()
@@ -461,6 +465,6 @@ func TestPairingEmulated(t *testing.T) {
 	}
 	wg.Wait()
 	if ev.Tier() == "thorough" && !t.Failed() {
-		pairProperty(t, [][2]string{{"bn254", "check"}, {"bn254", "g2"}, {"bn254", "g1"}, {"bls12381", "check"}, {"bls12381", "g1"}, {"bls12381", "g2"}}, 1, 600)
+		pairProperty(t, [][2]string{{"bn254", "check"}, {"bn254", "g2"}, {"bn254", "g1"}, {"bls12381", "check"}, {"bls12381", "g1"}, {"bls12381", "g2"}}, 1, 64)
 	}
 }
